@@ -182,3 +182,5 @@ def run(ctx):
                           "want": [1] if d["spec"]["cov_canonical"] else []})
         ctx.log("direction B: %d observations validated, %d IsCanonical disagreements" % (nobs, len(extra)))
         ctx.replay(extra[:50])
+    from checks import ext_iter   # EXT: RegionUnion (spec/Gen_IterRegions.tla)
+    ext_iter.run_c05(ctx)
